@@ -1139,6 +1139,8 @@ func (c *Checker) checkMethod(
 ) (ast.TypeNode, ast.TypeNode) {
 	prevCatchScopes := c.catchScopes
 	c.catchScopes = nil
+	// saved before hasDefer is cleared: restoring the flags must bring back the enclosing method's hasDefer
+	prevFlags := c.flags
 	prevHasDefer := c.hasDefer()
 	c.setHasDefer(false)
 	prevReturnType := c.returnType
@@ -1146,7 +1148,6 @@ func (c *Checker) checkMethod(
 
 	name := checkedMethod.Name
 	prevMode := c.mode
-	prevFlags := c.flags
 	isClosure := types.IsCallable(methodNamespace)
 
 	if methodNamespace != nil {
